@@ -171,7 +171,7 @@ func actionCI(ctx context.Context, c *cli.Command) error {
 			return errors.New("BITBUCKET_AUTH_TOKEN env variable is required when reporting to BitBucket")
 		}
 
-		timeout, _ := time.ParseDuration(meta.cfg.Repository.BitBucket.Timeout)
+		timeout := repositoryTimeout(meta.cfg.Repository.BitBucket.Timeout)
 		br := reporter.NewBitBucketReporter(
 			version,
 			meta.cfg.Repository.BitBucket.URI,
@@ -192,7 +192,7 @@ func actionCI(ctx context.Context, c *cli.Command) error {
 			return errors.New("GITLAB_AUTH_TOKEN env variable is required when reporting to GitLab")
 		}
 
-		timeout, _ := time.ParseDuration(meta.cfg.Repository.GitLab.Timeout)
+		timeout := repositoryTimeout(meta.cfg.Repository.GitLab.Timeout)
 		var gl reporter.GitLabReporter
 		if gl, err = reporter.NewGitLabReporter(
 			version,
@@ -231,7 +231,7 @@ func actionCI(ctx context.Context, c *cli.Command) error {
 			return errors.New("failed to get the HEAD commit")
 		}
 
-		timeout, _ := time.ParseDuration(meta.cfg.Repository.GitHub.Timeout)
+		timeout := repositoryTimeout(meta.cfg.Repository.GitHub.Timeout)
 		var gr reporter.GithubReporter
 		if gr, err = reporter.NewGithubReporter(
 			ctx,
@@ -375,4 +375,14 @@ func parseNames(s string) model.ValidationScheme {
 		return model.LegacyValidation
 	}
 	return model.UTF8Validation
+}
+
+// repositoryTimeout reads a timeout the way the configuration loader validated it: "1d" is a valid
+// Prometheus duration that time.ParseDuration refuses, and a refused value used to become no timeout at all.
+func repositoryTimeout(s string) time.Duration {
+	if d, err := model.ParseDuration(s); err == nil {
+		return time.Duration(d)
+	}
+	d, _ := time.ParseDuration(s)
+	return d
 }
